@@ -112,6 +112,27 @@ theorem read_positions_agree (s : Stack) (k : Str) (v : Val) (hwf : ∀ m ∈ s.
     Scope.get (s.envMap Vuego.goodCfg) k = some v ∧ Stack.lookup Vuego.goodCfg s k = .ok (some v) :=
   Vuego.Props.C17.envmap_agrees_on_scope_names s k v hwf hl
 
+/-- AN EXPLICIT NULL IS A DEFINITION: a key that the page's front-matter sets to null (`k: ~`) is null for that page, whatever the
+    Fill/Assign layer, data/*.yml and theme.yml define for it - presence, not non-nilness, decides which source wins -/
+theorem explicit_null_in_front_matter_wins (E : Engine) (calls : List Call) (file k : Str) (h : E.fmOf file k = some .nil) :
+    renderEnv goodCfg E (run goodCfg E (base goodCfg E) calls) file k = some .nil := by
+  rw [precedence]; simp [firstOf, h]
+
+/-- ... and one that the Fill/Assign layer sets to nil (`Fill(map{k: nil})`, `Assign(k, nil)`) hides the configuration files' values -/
+theorem explicit_null_in_layer_wins (E : Engine) (calls : List Call) (file k : Str) (h0 : E.fmOf file k = none)
+    (h : (calls.foldl (specLayer E) (empty, empty)).1 k = some .nil) :
+    renderEnv goodCfg E (run goodCfg E (base goodCfg E) calls) file k = some .nil := by
+  rw [precedence]; simp [firstOf, h0, h]
+
+theorem assign_nil_defines_the_key (E : Engine) (l fm : M) (k : Str) : (specLayer E (l, fm) (.assign k .nil)).1 k = some .nil := by
+  simp [specLayer, setKey]
+
+/-- the read positions agree on a null as on any other value: the path walker and the merged expression environment both see nil -/
+theorem null_read_positions_agree (s : Stack) (k : Str) (hwf : ∀ m ∈ s.scopes, Scope.WF m)
+    (hl : Stack.lookupScopes s.scopes.reverse k = some .nil) :
+    Scope.get (s.envMap Vuego.goodCfg) k = some .nil ∧ Stack.lookup Vuego.goodCfg s k = .ok (some .nil) :=
+  read_positions_agree s k .nil hwf hl
+
 /-- swapping two merge loops in Fill breaks the precedence (front-matter below the passed data) -/
 theorem swapped_fill_counterexample :
     let E : Engine := { theme := empty, dataYml := empty, fmOf := fun _ => fun k => if k = ['k'] then some (.str ['f','m']) else none }
